@@ -46,13 +46,12 @@ theorem mr_matches_put_new {pm : PM} {fix : Bytes} (hg : ∀ c ∈ splitSlash fi
 def subC (sv : Server) (sid : Nat) (path : Bytes) (f : Option Filt) : Server :=
   (subscribeRefs (sv.updSess sid (fun s => { s with subs := pmPut s.subs (adjustPrefix path (some defaultPrefix)) f })) sid
     (pmPut [] (adjustPrefix path (some defaultPrefix)) none) (some 1)).updSess sid
-    (fun s => { s with params := if s.params.contains (subscribePrefix ++ path) then s.params
-      else s.params ++ [subscribePrefix ++ path] })
+    (fun s => { s with params := subParams s.params path })
 
 /-- the subscriber's record in `subC` -/
 def subSess (s : Sess) (path : Bytes) (f : Option Filt) : Sess :=
   { s with subs := pmPut s.subs (adjustPrefix path (some defaultPrefix)) f,
-           params := if s.params.contains (subscribePrefix ++ path) then s.params else s.params ++ [subscribePrefix ++ path] }
+           params := subParams s.params path }
 
 theorem subscribe_new_eq {sv : Server} {sid : Nat} {s : Sess} (hs : sv.sess? sid = some s) (path : Bytes) (f : Option Filt)
     (hf : pmFind s.subs (adjustPrefix path (some defaultPrefix)) = none)
@@ -87,8 +86,7 @@ theorem subC_sess {sv : Server} {sid : Nat} {s : Sess} (hs : sv.sess? sid = some
     rw [foldl_setNode_sessions]; exact hx
   have h3 := h2 (travGlobal (sv.updSess sid (fun s => { s with subs := pmPut s.subs (adjustPrefix path (some defaultPrefix)) f }))
     (pmPut [] (adjustPrefix path (some defaultPrefix)) none) false cbContinue) _ _ h1
-  have := sess?_updSess_same _ sid (fun s => { s with params := if s.params.contains (subscribePrefix ++ path) then s.params
-      else s.params ++ [subscribePrefix ++ path] }) (by intro _; rfl) h3
+  have := sess?_updSess_same _ sid (fun s => { s with params := subParams s.params path }) (by intro _; rfl) h3
   rw [this]; rfl
 
 theorem subC_data (sv : Server) (sid : Nat) (path : Bytes) (f : Option Filt) (w : List Bytes) :
